@@ -669,7 +669,7 @@ class FPNum:
     def compare(self, bref):
         if (self.nan or bref.nan): return 0 
         if (self.infinity and bref.infinity and (self.s == bref.s)): return 0
-        if (self.infinity and bref.infinity and (self.s != bref.s)): return 1
+        if (self.infinity and bref.infinity and (self.s != bref.s)): return self.s
         if (self.infinity or bref.infinity): 
             if (self.infinity): return self.s
             else: return -bref.s
